@@ -97,6 +97,7 @@ def run_c(facts, report, config, eng=None):
     if eng is None:
         eng = flow.Engine(facts, flow.Policy())
         eng.run_all(collect=False)
+    inst = {}
     for b in facts.fn_bodies():
         if b["kind"] == "Closure" or not (b.get("sig_out") or "").startswith(FALLIBLE):
             continue
@@ -107,8 +108,6 @@ def run_c(facts, report, config, eng=None):
         prec_p = [i for i in range(1, view.argc + 1) if names.get(str(i)) in PRECISION_NAMES]
         if not slice_p or not prec_p:
             continue
-        report.count("precision_decoders")
-        key = "c16.precguard|%s" % norm_id(b["id"])
         summ, evs = eng.analyze(b["id"], collect=True)
         want_len = {"@%d#len" % slice_p[0]}
         found = None
@@ -130,19 +129,90 @@ def run_c(facts, report, config, eng=None):
                                         _error_region(view, succs[1], succs[0])):
                     found = e.info.get("span")
                     break
-        if found:
+        inst[b["id"]] = {"b": b, "slice": slice_p[0], "prec": prec_p[0], "found": found, "rounded": rounded}
+    for bid, d in sorted(inst.items()):
+        b = d["b"]
+        names = b.get("names", {})
+        report.count("precision_decoders")
+        key = "c16.precguard|%s" % norm_id(bid)
+        if d["found"]:
             report.add(Instance(key, "c16.precguard", "ok",
                                 "auto: a branch at %s depends on both the input and the precision and has two "
-                                "distinct outcomes" % found, b["span"], {"body": b["id"]}), config)
+                                "distinct outcomes" % d["found"], b["span"], {"body": bid}), config)
+            continue
+        # the check may live in a helper that receives both the input and the precision and whose failure is
+        # propagated (`helper(bytes, bits_precision)?`)
+        view = eng.view(bid)
+        prov = mir.Provenance(view)
+        fwd = None
+        for bi, t in view.calls():
+            if view.blocks[bi]["cleanup"] or t["t"] is None:
+                continue
+            for c in eng.callee_ids(t):
+                dc = inst.get(c)
+                if not dc or not dc["found"] or c == bid:
+                    continue
+                if dc["slice"] - 1 >= len(t["args"]) or dc["prec"] - 1 >= len(t["args"]):
+                    continue
+                rs = {r.what for r in prov.roots_of_operand(t["args"][dc["slice"] - 1]) if r.kind == "param" and not r.path}
+                rp = {r.what for r in prov.roots_of_operand(t["args"][dc["prec"] - 1]) if r.kind == "param" and not r.path}
+                if rs != {d["slice"]} or rp != {d["prec"]}:
+                    continue
+                # is the helper's failure propagated? a switch in the blocks after the call with a rejecting outcome
+                for x in view.reach_set(t["t"]):
+                    tx = view.blocks[x]["term"]
+                    if tx["k"] == "switch":
+                        succs = list(dict.fromkeys(tx["t"]))
+                        if len(succs) >= 2 and any(_error_region(view, a, o) for a in succs for o in succs if a != o) \
+                                and _switch_on_result_of(view, x, t["dst"][0]):
+                            fwd = (mir.callee_name(t), t["s"])
+        if fwd:
+            report.add(Instance(key, "c16.precguard", "ok",
+                                "auto: the whole input slice and the requested precision are handed to `%s` (which owns the "
+                                "rejecting comparison) at %s and its failure is propagated" % fwd, b["span"],
+                                {"body": bid}), config)
         else:
             report.add(Instance(key, "c16.precguard", "violation",
                                 "no returning branch depends on both the length of `%s` and `%s`: input longer "
                                 "than the requested precision is not rejected%s" % (
-                                    names.get(str(slice_p[0])), names.get(str(prec_p[0])),
+                                    names.get(str(d["slice"])), names.get(str(d["prec"])),
                                     " (the comparison at %s uses a size read back from the allocated BoxedUint, which "
-                                    "is rounded up to whole limbs, instead of the requested precision)" % rounded
-                                    if rounded else ""), b["span"],
-                                {"body": b["id"]}), config)
+                                    "is rounded up to whole limbs, instead of the requested precision)" % d["rounded"]
+                                    if d["rounded"] else ""), b["span"],
+                                {"body": bid}), config)
+
+
+def _switch_on_result_of(view, sw_bb, local, depth=0):
+    """does the SwitchInt ending block sw_bb test (the discriminant of) a value derived from `local` by moves,
+    `Try::branch` and discriminant reads?"""
+    t = view.blocks[sw_bb]["term"]
+    if t["op"][0] not in ("c", "m"):
+        return False
+    want = {local}
+    changed = True
+    while changed:
+        changed = False
+        for bb in view.blocks:
+            if bb["cleanup"]:
+                continue
+            for s in bb["stmts"]:
+                if s[0] != "a" or s[1][0] in want:
+                    continue
+                rv = s[2]
+                src = None
+                if rv[0] == "use" and rv[1][0] in ("c", "m"):
+                    src = rv[1][1][0]
+                elif rv[0] in ("discr", "cfd"):
+                    src = rv[1][0]
+                if src in want:
+                    want.add(s[1][0])
+                    changed = True
+            tt = bb["term"]
+            if tt["k"] == "call" and tt["dst"][0] not in want and mir.last_seg(mir.callee_decl(tt)) in ("branch", "into", "from") \
+                    and any(a[0] in ("c", "m") and a[1][0] in want for a in tt["args"]):
+                want.add(tt["dst"][0])
+                changed = True
+    return t["op"][1][0] in want
 
 
 def _error_region(view, s, other):
